@@ -5,6 +5,7 @@ import (
 	"context"
 	"crypto/tls"
 	"fmt"
+	"github.com/AdguardTeam/AdGuardDNS/internal/dnsmsg"
 	"io"
 	"net/http"
 	"runtime"
@@ -210,6 +211,13 @@ func runC08(s *kernel.Sim, _ string) {
 	n.Faults = simnet.Faults{}
 	maxUDP := kernel.Pick(t, []uint16{1232, 0, 512, 4096, 65535}, "max-udp-resp")
 	p := &pipeline{}
+	if t.Chance(1, 2, "production-cloner") {
+		// The handler's responses are clones from the pools of the production
+		// cloner, into which the servers release what they have written
+		// (options the servers added included).
+		p.cloner = dnsmsg.NewCloner(dnsmsg.EmptyClonerStat{})
+		s.Probe("production-cloner")
+	}
 	boundBuf := 0
 	if t.Chance(1, 3, "bound") {
 		boundBuf = kernel.Pick(t, []int{1, 4, 64}, "bound-chan")
